@@ -214,7 +214,9 @@ def exec_state(df, st, emb, vs, part, scratch, sid=0):
                            "cell array 'field' does not hold, at VTK id i+nx*(j+ny*k), the value of mesh cell (i,j,k)",
                            wit(got=fa, want=E))
         n2 = np.array(G["norm2"], dtype=float) * vs * vs
-        if A["norm"].shape != (ncell,) or not np.all(np.abs(A["norm"] ** 2 - n2) <= 1e-9 * np.maximum(n2, 1e-300)):
+        # (compared through the square because the model carries norm^2; a norm is never negative - seeded change C16-13
+        # wrote the value itself as the norm of a scalar field)
+        if A["norm"].shape != (ncell,) or not np.all(np.abs(A["norm"] ** 2 - n2) <= 1e-9 * np.maximum(n2, 1e-300)) or np.any(A["norm"] < 0):
             part.violation(key("C16_ValueAtLocatedCell", "norm", _dy(emb)), "cell array 'norm' is not the norm of the cell's value",
                            wit(got=A["norm"], want_squared=n2))
         for c, nm in enumerate(G["names"]):
@@ -454,7 +456,7 @@ def gen_trace(df, rnd, tid, embs, scratch):
         cexact = cexact and ce
     n2 = A["norm"] ** 2 / (vs * vs)
     n2i = np.rint(n2)
-    nexact = bool(np.all(np.abs(n2 - n2i) <= 1e-9 * np.maximum(n2i, 1.0)))
+    nexact = bool(np.all(np.abs(n2 - n2i) <= 1e-9 * np.maximum(n2i, 1.0)) and not np.any(A["norm"] < 0))   # a norm is never negative
     ev.append({"k": "grid", "exact": all(b for ax in prj for _, b in ax) and fexact and cexact and nexact,
                "xs": [[a for a, _ in ax] for ax in prj], "names": comp_names, "field": fvals, "comps": comps,
                "norm2": [int(v) for v in n2i], "valid": [int(v) for v in A["valid"]]})
